@@ -600,6 +600,42 @@ def _rule3(ctx, rep):
         )
 
 
+def _rule4(ctx, rep):
+    """the switch "client certificates are configured" (added after seeded change C19-8: security.clients() left expired
+    certificates out; with every configured certificate expired the list was empty and is_sanctioned took its
+    "no clients configured: everything is accessible" branch for anonymous callers)"""
+    prog = ctx.prog
+    with rep.rule(
+        'R-C19-4',
+        'what is_sanctioned tests to decide whether client certificates are configured is the configured list itself: security.clients() returns the module list of loaded certificates (or a copy of it), not a selection from it',
+        floor=1,
+        breaks='a filter on that list (expiry, issuer, ...) can make it empty although certificates are configured: the command end points open up to anonymous callers',
+    ) as r:
+        f = prog.nfunc('dawgie.security.clients')
+        rep.analysed(f)
+        r.instance()
+        rets = [n for n in f.own_nodes() if isinstance(n, ast.Return) and n.value is not None]
+
+        def whole(e):
+            if isinstance(e, ast.Name):
+                return e.id in f.module.globals
+            if isinstance(e, ast.Call) and isinstance(e.func, ast.Attribute) and e.func.attr == 'copy' and not e.args:
+                return whole(e.func.value)
+            if isinstance(e, ast.Call) and isinstance(e.func, ast.Name) and e.func.id in ('list', 'tuple') and len(e.args) == 1:
+                return whole(e.args[0])
+            if isinstance(e, ast.Subscript) and isinstance(e.slice, ast.Slice) and e.slice.lower is None and e.slice.upper is None and e.slice.step is None:
+                return whole(e.value)
+            return False
+
+        r.check(
+            bool(rets) and all(whole(n.value) for n in rets),
+            f'{f.qname}:whole-configured-list',
+            where(f, rets[0] if rets else None),
+            'returns the loaded certificates unfiltered',
+            f'{f.qname} returns {norm(rets[0].value)[:70] if rets else "nothing"}: a selection from the configured certificates; is_sanctioned reads an empty result as "no client certificates configured"',
+        )
+
+
 def check(ctx):
     rep = Report(
         PID,
@@ -616,6 +652,7 @@ def check(ctx):
     _rule1(ctx, rep)
     _rule2(ctx, rep)
     _rule3(ctx, rep)
+    _rule4(ctx, rep)
     return rep
 
 
@@ -631,6 +668,8 @@ VARIANTS = [
     V('render_PUT bypasses check', 'B', 'fe/basis.py', 'DynamicContent.render_PUT', 'return self.__render(req, HttpMethod.PUT)', 'return self.__fnc()', 'R-C19-3'),
     V('peer certificate wrapped before the check', 'B', 'fe/basis.py', 'DynamicContent.__render', 'cert = request.transport.getPeerCertificate()', 'cert = dict(x509=request.transport.getPeerCertificate())', 'R-C19-3'),
     V('peer certificate wrapped only when present', 'N', 'fe/basis.py', 'DynamicContent.__render', 'cert = request.transport.getPeerCertificate()', 'raw = request.transport.getPeerCertificate()\n            cert = dict(x509=raw) if raw is not None else None', None),
+    V('clients() leaves expired certificates out', 'B', 'security.py', 'clients', 'return _certs.copy()', 'return [c for c in _certs if not c.original.has_expired()]', 'R-C19-4'),
+    V('clients() as list()', 'N', 'security.py', 'clients', 'return _certs.copy()', 'return list(_certs)', None),
     V('rename flag', 'N', 'fe/__init__.py', '_static', 'if valid and ffn.is_file():', 'if ffn.is_file() and valid:', None),
     V('read-only endpoint added to allow-list', 'N', 'security.py', 'is_sanctioned', "'/api/ae/name',", "'/api/ae/name', '/api/some/new/view',", None),
 ]
